@@ -3,6 +3,8 @@ import DryocVerif.Model.Sign
 import DryocVerif.Model.Core
 import DryocVerif.Model.OnetimeAuth
 import DryocVerif.Model.SecretBox
+import DryocVerif.Model.Curve
+import DryocVerif.Model.KeyForms
 /-
 Code-shaped models of the OBJECT-API entry points that take their fixed-length arguments through
 `ByteArray<N>::as_array` (/repo/src/types.rs), for containers whose length is not in the type
@@ -15,6 +17,11 @@ Code-shaped models of the OBJECT-API entry points that take their fixed-length a
                              which `Model/OnetimeAuth.lean` leaves out (it views only the tag)
 * /repo/src/dryocsecretbox.rs `DryocSecretBox::decrypt`
 * /repo/src/dryocbox.rs      `DryocBox::decrypt`, `DryocBox::unseal`
+* /repo/src/kx.rs            `Session::new_client`, `Session::new_server` (+ `…_with_defaults`)
+* /repo/src/keypair.rs       `KeyPair::kx_new_client_session`, `kx_new_server_session`, `KeyPair::precalculate`
+* /repo/src/precalc.rs       `PrecalcSecretKey::precalculate` (+ `precalculate_locked`, `precalculate_readonly_locked`:
+                             the same two views; their allocation `Result` is not modelled here)
+* /repo/src/kdf.rs           `Kdf::derive_subkey`, `Kdf::derive_subkey_to_vec`
 
 With containers whose TYPE carries the length (`[u8; N]`, `StackByteArray<N>`, `HeapByteArray<N>`, `Locked<…>`)
 every view below is the identity and these functions coincide with the existing models (`…_exact` lemmas in
@@ -121,5 +128,44 @@ def objUnsealView (P : Prims) (b : Box) (rpk rsk : Bytes) : Outcome Bytes :=
     view2 32 epk 32 rpk fun e r =>
       view2 16 b.tag 32 rsk fun t s =>
         objBoxDecrypt P { b with tag := t } (sealNonce P e r) e s
+
+/-! ### key exchange, precalculation, key derivation (kx.rs, keypair.rs, precalc.rs, kdf.rs) -/
+
+/-- the third view after a `view2` (Rust evaluates the call arguments left to right) -/
+def kxView3 {α : Type} (n₁ : Nat) (x₁ : Bytes) (n₂ : Nat) (x₂ : Bytes) (n₃ : Nat) (x₃ : Bytes)
+    (f : Bytes → Bytes → Bytes → Outcome α) : Outcome α :=
+  view2 n₁ x₁ n₂ x₂ fun a₁ a₂ =>
+    match asArray n₃ x₃ with
+    | .ok a₃ => f a₁ a₂ a₃
+    | .err => .err
+    | .panic => .panic
+
+/-- `Session::new_client(client_keypair, server_public_key)` (= `new_client_with_defaults`,
+= `KeyPair::kx_new_client_session`): two fresh 32-byte session-key containers (`SessionKey::new_byte_array()`,
+whose `as_mut_array` cannot fail: `NewByteArray<32> for Vec<u8>` is `vec![0u8; 32]`), then
+`crypto_kx_client_session_keys(rx, tx, client_keypair.public_key.as_array(),
+client_keypair.secret_key.as_array(), server_public_key.as_array())?` → (rx, tx) -/
+def sessionNewClient (P : Model.Curve.Prims) (cpk csk spk : Bytes) : Outcome (Bytes × Bytes) :=
+  kxView3 32 cpk 32 csk 32 spk fun pk sk s => Model.Curve.kxClient P pk sk s
+
+/-- `Session::new_server(server_keypair, client_public_key)` (= `new_server_with_defaults`,
+= `KeyPair::kx_new_server_session`):
+`crypto_kx_server_session_keys(rx, tx, server_keypair.public_key.as_array(),
+server_keypair.secret_key.as_array(), client_public_key.as_array())?` → (rx, tx) -/
+def sessionNewServer (P : Model.Curve.Prims) (spk ssk cpk : Bytes) : Outcome (Bytes × Bytes) :=
+  kxView3 32 spk 32 ssk 32 cpk fun pk sk c => Model.Curve.kxServer P pk sk c
+
+/-- `PrecalcSecretKey::precalculate(third_party_public_key, secret_key)` (= `KeyPair::precalculate` with
+`secret_key = self.secret_key`): `crypto_box_beforenm(third_party_public_key.as_array(), secret_key.as_array())`;
+no `Result`: the only failure is a failed `as_array` assertion -/
+def objPrecalculate (P : Model.Curve.Prims) (pk sk : Bytes) : Outcome Bytes :=
+  view2 32 pk 32 sk fun p s => .ok (Model.Curve.beforenm P p s)
+
+/-- `Kdf::derive_subkey::<Subkey>(subkey_id)` (= `derive_subkey_to_vec`): `Subkey: NewByteArray<32>`, so the
+sub-key ALWAYS has 32 bytes (`CRYPTO_KDF_KEYBYTES`); then
+`crypto_kdf_derive_from_key(subkey.as_mut_array(), subkey_id, self.context.as_array(), self.main_key.as_array())?`
+— context (8) and main key (32) each through `as_array`, the context first -/
+def kdfObjDerive (id : Nat) (ctx key : Bytes) : Outcome Bytes :=
+  view2 8 ctx 32 key fun c k => Model.KeyForms.kdfDeriveImpl 32 id c k
 
 end DryocVerif.Model.ObjectView
